@@ -349,9 +349,8 @@ func (c *Conn) handleControl(ctx context.Context, h header) (err error) {
 
 	err = fmt.Errorf("received close frame: %w", ce)
 	c.writeClose(ce.Code, ce.Reason)
-	c.readMu.unlock()
 	verifPoint(c, "handleControl.preclose")
-	c.close()
+	c.closeUnlocking(c.readMu)
 	return err
 }
 
@@ -361,8 +360,7 @@ func (c *Conn) handleControl(ctx context.Context, h header) (err error) {
 //
 // It must be called with readMu held.
 func (c *Conn) failRead() {
-	c.readMu.unlock()
-	c.close()
+	c.closeUnlocking(c.readMu)
 }
 
 func (c *Conn) reader(ctx context.Context) (_ MessageType, _ io.Reader, err error) {
